@@ -25,3 +25,11 @@ Proof. repeat split; reflexivity. Qed.
 
 Theorem src_node_defaults : d_gomavlib_Node_Initialize_OutComponentID = 1.
 Proof. reflexivity. Qed.
+
+(* the defaults of the time-outs and of the heartbeat period are constants of the source, not derived
+   from one another: read and write 10 s, idle 60 s, heartbeats every 5 s *)
+Theorem src_timeout_defaults :
+  d_gomavlib_Node_Initialize_ReadTimeout = 10000000000 /\ d_gomavlib_Node_Initialize_WriteTimeout = 10000000000 /\
+  d_gomavlib_Node_Initialize_IdleTimeout = 60000000000 /\ d_gomavlib_Node_Initialize_HeartbeatPeriod = 5000000000 /\
+  v_gomavlib_reconnectPeriod = 2000000000.
+Proof. repeat split; reflexivity. Qed.
